@@ -44,12 +44,13 @@ def main(tier, replay):
     okg, exe = vlib.go_build("latch")
     stats, mism, pfails, stress, samples, classes, passes = {}, [], [], [], [], {}, {}
     stress_crash = None
+    script_stats = {}
     distinct = 0
     if okg and okm:
         err = None
         if replay:
             case = json.load(open(replay)).get("case") or ["", ""]
-            if case[0] == "stress":
+            if case[0] == "stress" or case[1][:1] in ("L", "U", "X", "M"):
                 rc, lines = 0, ""
             else:
                 rc, lines = vlib.sh([exe, "replay", case[0], case[1]], env=env, timeout=300)
@@ -61,6 +62,30 @@ def main(tier, replay):
             rc, cmp_out = vlib.sh([modelrun], inp=lines, timeout=1500)
             if rc != 0:
                 err = "modelrun failed: " + cmp_out[-600:]
+        # script mode: Lock / UnLock / Close through the real LatchesScheduler, compared at every quiescent point
+        sc_lines = ""
+        if err is None and not replay:
+            rc, sc_lines = vlib.sh([exe, "sched"], env=env, timeout=1500)
+            if rc != 0:
+                err = "sched driver failed rc=%d: %s" % (rc, sc_lines[-600:])
+        elif err is None and replay and case[0] != "stress" and case[1][:1] in ("L", "U", "X", "M"):
+            rc, sc_lines = vlib.sh([exe, "replay-sched", case[0], case[1]], env=env, timeout=300)
+        if err is None and sc_lines:
+            rc, cmp2 = vlib.sh([modelrun], inp=sc_lines, timeout=1500)
+            if rc != 0:
+                err = "modelrun (scripts) failed: " + cmp2[-600:]
+            else:
+                for l in cmp2.splitlines():
+                    f = l.split("\t")
+                    if f[0] == "STATS":
+                        kv = {x.split("=")[0]: int(x.split("=")[1]) for x in f[1:]}
+                        script_stats.update(kv)
+                    elif f[0] == "MISMATCH":
+                        mism.append(f[1:])
+                    elif f[0] == "PROPFAIL":
+                        pfails.append(f[2:])
+                    elif f[0] == "COUNT" and f[1].startswith("script:"):
+                        classes[f[1]] = int(f[2])
         sout, stress_crash = "", None
         if err is None:
             rc, sout = vlib.sh([exe, "stress"], env=env, timeout=1500)
@@ -129,14 +154,15 @@ def main(tier, replay):
     if proof_broken:
         v.violation({"kind": "proof", "theorem_or_file": gate["problems"], "what": "Coq obligations no longer check"}, has_input=False)
     nstress = sum(int(x) for st in stress for x in re.findall(r"ok=(\d+)", st[1])) + sum(int(x) for st in stress for x in re.findall(r"stale=(\d+)", st[1]))
-    cov.update(evaluations=stats.get("edges", 0) + sum(passes.values()) + nstress,
+    cov.update(evaluations=stats.get("edges", 0) + script_stats.get("edges", 0) + sum(passes.values()) + nstress,
                distinct_nontrivial=distinct,
                states=stats.get("nodes", 0), transitions=stats.get("edges", 0),
                exhaustive=(stats.get("trunc", 1) == 0),
-               rule="DFS with state hashing over every interleaving of the atomic steps (thread acquireSlot, unlock, scheduler pop / releaseSlot / wake-up acquireSlot, recycle) and macro edges (real acquire/release/wakeup): d2 = 2 txns, all intersecting key-set pairs of a 3-key pool x all start/commit options incl. ties x {1 slot, 2 slots with a collision}; d3 = sampled 3-txn configurations; d4 = sampled 4 txns x <=3 keys (4-key pool); dr = physical timestamps, 6 keys, in-line + external recycle; w = random walks 3-6 txns, 1-4 slots. distinct_nontrivial = distinct (op kind, result, resulting full state dump) edges whose resulting state has a waiter, a stale lock or a pending wake-up. DFS cases truncated by the node budget: %d" % stats.get("trunc", -1),
+               rule="DFS with state hashing over every interleaving of the atomic steps (thread acquireSlot, unlock, scheduler pop / releaseSlot / wake-up acquireSlot, recycle) and macro edges (real acquire/release/wakeup): d2 = 2 txns, all intersecting key-set pairs of a 3-key pool x all start/commit options incl. ties x {1 slot, 2 slots with a collision}; d3 = sampled 3-txn configurations; d4 = sampled 4 txns x <=3 keys (4-key pool); dr = physical timestamps, 6 keys, in-line + external recycle; w = random walks 3-6 txns, 1-4 slots; d3x (thorough) = 3 txns exhaustively (all key-set triples <=2 keys, starts 1<2<3, commits {none,start+1,4}, 1/2 slots); sc/cap = scripts through the REAL LatchesScheduler (Lock/UnLock/Close, recycle trigger, 130 pending unlocks against the 100-slot channel) compared with the model at every quiescent point (exact quiescence from runtime.Stack). distinct_nontrivial = distinct (op kind, result, resulting full state dump) edges whose resulting state has a waiter, a stale lock or a pending wake-up. DFS cases truncated by the node budget: %d" % stats.get("trunc", -1),
                samples=samples[:10], traces_validated_against_impl=stats.get("edges", 0),
                input_distribution=classes, oracle_passes=passes, model_mismatches=len(mism), oracle_failures=len(pfails),
-               stress_rounds=[" ".join(s) for s in stress])
+               stress_rounds=[" ".join(s) for s in stress],
+               scheduler_script_actions=script_stats.get("edges", 0))
     rc = v.finish()
     vlib.write_evidence(PID, cov, t0, violations=len(v.violations), level="proof",
                         assumptions=["keys of one Lock are distinct (txn.go passes the mutation keys of a memdb)", "byte order of the driver's keys = order of key ids",
